@@ -523,3 +523,131 @@ func gxzFullStdout(c *hx.Ctx, bin string) {
 		}
 	})
 }
+
+// gxzOperandEdgeCases: operand names that start with a dash and differ from it only by the
+// suffix ("-.xz" decompresses to a file named "-"), long operand lists whose number of failing
+// members is a multiple of 256 (the exit status has eight bits), and long lists of refused
+// members under a small descriptor limit followed by a good member (files are processed
+// independently of one another: a refused member must not use up anything).
+func gxzOperandEdgeCases(c *hx.Ctx, bin string) {
+	plain := MakeData("text", 2000, c.Seed+31)
+	newDir := func() string {
+		d, err := os.MkdirTemp(c.Scratch, "edge")
+		if err != nil {
+			c.Inconclusive("mkdir: %v", err)
+		}
+		return d
+	}
+	sig := func(kind, what string) map[string]string {
+		return map[string]string{"part": "operand-edge", "kind": kind, "case": what}
+	}
+	// 1. names "-.xz", "-.lzma", "--.xz", "-k.xz" after "--"
+	for _, tc := range []struct{ in, tgt, format string }{{"-.xz", "-", "xz"}, {"-.lzma", "-", "lzma"}, {"--.xz", "--", "xz"}, {"-k.xz", "-k", "xz"}, {"-c.lzma", "-c", "lzma"}} {
+		for _, keep := range []bool{false, true} {
+			dir := newDir()
+			os.WriteFile(filepath.Join(dir, tc.in), gxzEncode(tc.format, plain), 0o644)
+			args := []string{"-d"}
+			if keep {
+				args = append(args, "-k")
+			}
+			run := runCli(bin, dir, append(args, "--", tc.in))
+			after := snapshot(dir)
+			c.Count(1, 1)
+			replay := map[string]any{"argv": run.argv, "exit": run.exit, "stderr": string(run.stderr), "dir": fmt.Sprint(len(after))}
+			want := map[string]string{tc.tgt: "F:" + string(plain)}
+			if keep {
+				want[tc.in] = "F:" + string(gxzEncode(tc.format, plain))
+			}
+			ok := run.exit == 0 && len(after) == len(want)
+			for n, v := range want {
+				ok = ok && after[n] == v
+			}
+			if !ok {
+				var names []string
+				for n := range after {
+					names = append(names, n)
+				}
+				sort.Strings(names)
+				c.Violation(sig("dash-name", tc.in), fmt.Sprintf("gxz %q: exit %d, directory afterwards %q; expected exit 0 and exactly %q holding the content (input kept=%v)", run.argv, run.exit, names, tc.tgt, keep), replay)
+			}
+			os.RemoveAll(dir)
+		}
+	}
+	// 2. N failing operands, N around multiples of 256, plus one good operand in the middle
+	for _, n := range c.PickInts([]int{255, 256, 257, 512}, []int{1, 2, 255, 256, 257, 511, 512, 513, 768, 1024}) {
+		dir := newDir()
+		os.WriteFile(filepath.Join(dir, "good.txt"), plain, 0o644)
+		var args []string
+		for i := 0; i < n; i++ {
+			if i == n/2 {
+				args = append(args, "good.txt")
+			}
+			args = append(args, fmt.Sprintf("missing%04d", i))
+		}
+		run := runCli(bin, dir, append([]string{"-q"}, args...))
+		after := snapshot(dir)
+		c.Count(1, 1)
+		replay := map[string]any{"failing_operands": n, "exit": run.exit, "stderr_head": hexHead(run.stderr, 200)}
+		if run.exit == 0 {
+			c.Violation(sig("exit-status-wraps", fmt.Sprint(n)), fmt.Sprintf("gxz with %d operands that cannot be processed exits 0", n), replay)
+		}
+		if dec, ok := decodeAny([]byte(strings.TrimPrefix(after["good.txt.xz"], "F:")), "xz"); !ok || !bytes.Equal(dec, plain) || len(after) != 1 {
+			c.Violation(sig("good-member-not-processed", fmt.Sprint(n)), fmt.Sprintf("gxz with %d failing operands: the one good operand was not processed independently (directory has %d entries)", n, len(after)), replay)
+		}
+		os.RemoveAll(dir)
+	}
+	// 3. many refused members under a small descriptor limit, then a good one
+	for _, mode := range []string{"compress-has-suffix", "decompress-target-exists"} {
+		dir := newDir()
+		var args []string
+		if mode == "decompress-target-exists" {
+			args = append(args, "-d")
+		}
+		comp := gxzEncode("xz", plain)
+		for i := 0; i < 120; i++ {
+			name := fmt.Sprintf("m%03d.xz", i)
+			os.WriteFile(filepath.Join(dir, name), comp, 0o644)
+			if mode == "decompress-target-exists" {
+				os.WriteFile(filepath.Join(dir, fmt.Sprintf("m%03d", i)), []byte(preExisting), 0o644)
+			}
+			args = append(args, name)
+		}
+		good, goodTgt := "good.txt", "good.txt.xz"
+		if mode == "decompress-target-exists" {
+			good, goodTgt = "good.xz", "good"
+			os.WriteFile(filepath.Join(dir, good), comp, 0o644)
+		} else {
+			os.WriteFile(filepath.Join(dir, good), plain, 0o644)
+		}
+		args = append(args, good)
+		quoted := ""
+		for _, a := range args {
+			quoted += " '" + a + "'"
+		}
+		cmd := exec.Command("sh", "-c", "ulimit -n 48; exec '"+bin+"' -q"+quoted)
+		cmd.Dir = dir
+		var se bytes.Buffer
+		cmd.Stderr = &se
+		err := cmd.Run()
+		exit := 0
+		if ee, ok := err.(*exec.ExitError); ok {
+			exit = ee.ExitCode()
+		}
+		after := snapshot(dir)
+		c.Count(1, 1)
+		replay := map[string]any{"mode": mode, "exit": exit, "stderr_tail": hexHead(se.Bytes(), 300)}
+		done := false
+		if v, ok := after[goodTgt]; ok && strings.HasPrefix(v, "F:") {
+			if mode == "decompress-target-exists" {
+				done = v[2:] == string(plain)
+			} else {
+				dec, ok := decodeAny([]byte(v[2:]), "xz")
+				done = ok && bytes.Equal(dec, plain)
+			}
+		}
+		if !done || exit == 0 {
+			c.Violation(sig("refused-members-use-up-resources", mode), fmt.Sprintf("gxz with 120 refused members (%s) and 48 descriptors: exit %d, the good last member processed=%v; stderr tail: %.200s", mode, exit, done, se.String()), replay)
+		}
+		os.RemoveAll(dir)
+	}
+}
